@@ -27,9 +27,25 @@ What the theorems establish about the *code* (through the model):
    segment is accepted at its new position (`replay_extension_validates`) although the index form rejects
    it by the length check alone (`index_form_rejects_replay`) — an open finding, reproduced on the real
    code by the harness;
-4. RPC conversion: total, no panic (`seg_rpc_total`, `path_rpc_total`); lossless on the values the
+4. RPC conversion: total, no panic (`seg_rpc_total`, `path_rpc_total`); segments: lossless on the values the
    conversion can produce and on honestly built segments (`seg_rpc_roundtrip`, `seg_rpc_idempotent`,
-   `built_entry_consistent`), not lossless for non-empty `extensions` (`extensions_lost`).
+   `built_entry_consistent`), not lossless for non-empty `extensions` (`extensions_lost`); paths: lossless on
+   the explicitly characterised canonical paths (`path_rpc_roundtrip`, `link_canon_iff`, `lat_canon`,
+   `geo_canon`), which include everything obtained from a sane RPC message (`path_rpc_idempotent`); the
+   excluded values are real (`link_alias_witness`, `expiration_clamp_witness`).
+
+Full statements that are FALSE on the current code (kept here as comments, each with its proved negation):
+
+  -- theorem extension_rejected : seg' = seg with an entry inserted/appended → ∀ later position, validate ≠ ok
+  --   ¬: `replay_extension_validates` (the inserted entry is a copy of an earlier one)
+  -- theorem takewhile_is_index : ∀ seg i, assocTW seg seg.entries[i].entry = assocIdx seg i
+  --   ¬: `takewhile_eq_index_witness`;  partial: `takewhile_eq_index` (no earlier equal entry)
+  -- theorem sign_validate_any_length : … without `adN < 2^31`
+  --   ¬: `Signed.i32_lossy_witness`;    partial: `signed_validates`
+  -- theorem seg_roundtrip_all : ∀ seg built by the signing code, segFromRpc (segToRpc seg) = ok seg
+  --   ¬: `extensions_lost`;             partial: `seg_rpc_roundtrip` + `built_entry_consistent` (WellTyped)
+  -- theorem path_roundtrip_all : ∀ p, pathFromRpc (pathToRpc p) = ok p
+  --   ¬: `link_alias_witness`, `expiration_clamp_witness`;  partial: `path_rpc_roundtrip` (PathCanon)
 -/
 namespace ScionVerif.C18
 open ScionVerif.Signed ScionVerif.Rpc ScionVerif.Generated.Signed
